@@ -1,7 +1,7 @@
 (* Fixed runners for the generated C05 case files.  Each returns a Z bit mask, 0 = the model and
    the implementation agree on everything the case records. *)
 From Coq Require Import ZArith List Bool Arith Lia.
-From Persim Require Import Spec.MGH Model.MGHM Model.GraphM.
+From Persim Require Import Spec.MGH Model.MGHM Model.GraphM Proofs.MGHDec.
 Import ListNotations.
 Open Scope Z_scope.
 
@@ -46,7 +46,14 @@ Definition check_c05 (AX AY DX DY : mat) (impl_lb : Z)
   bit (dm_ok AX DX) 1 + bit (dm_ok AY DY) 2 + bit (lb_ok DX DY impl_lb) 4 +
   bit (ubmin_ok DX DY impl_lb s1 more1 u1) 8 + bit (ubmin_ok DY DX u1 s2 more2 u2) 16 +
   bit (ub =? Z.max u1 u2) 32 +
-  bit (oz_eqb (find_ub DX DY s1 s2 impl_lb) ub) 64.
+  bit (oz_eqb (find_ub DX DY s1 s2 impl_lb) ub) 64 +
+  (* the hypothesis of the C05 theorems holds for the matrices the implementation works on *)
+  bit (dmatrix_b DX && dmatrix_b DY) 1024.
 
 (* cases given directly by distance matrices (no adjacency), lower bound only *)
 Definition check_lb (DX DY : mat) (impl_lb : Z) : Z := bit (lb_ok DX DY impl_lb) 4.
+
+(* every recorded construct_mapping call (pi, y0, images, distortion) of the two directions *)
+Definition check_cms (DX DY : mat) (r1 r2 : list (list nat * nat * list nat * Z)) : Z :=
+  bit (forallb (fun r => match r with (pi, y0, im, ds) => cm_ok DX DY pi y0 im ds end) r1 &&
+       forallb (fun r => match r with (pi, y0, im, ds) => cm_ok DY DX pi y0 im ds end) r2) 128.
